@@ -40,9 +40,11 @@ def routeFlag (method path : String) : Option Bool :=
   | some r => r.requiresAuth
   | none => none
 
-def userId (u : String) : Nat := if u = "alice" then 1 else if u = "bob" then 2 else 0
-def userExists (u : String) : Bool := u = "alice" || u = "bob"
-def pwOk (u p : String) : Bool := (u = "alice" && p = "pw-alice") || (u = "bob" && p = "pw-bob")
+def userId (u : String) : Nat := if u.toLower = "alice" then 1 else if u.toLower = "bob" then 2 else 0
+def userExists (u : String) : Bool := u.toLower = "alice" || u.toLower = "bob"
+/-- user names are compared case-insensitively (the users table declares `username … COLLATE NOCASE`);
+    the password is what it is, byte for byte. -/
+def pwOk (u p : String) : Bool := (u.toLower = "alice" && p = "pw-alice") || (u.toLower = "bob" && p = "pw-bob")
 
 def outName : Outcome → String
   | .unauthorized => "401" | .forbidden => "403" | .reached _ => "reached"
